@@ -1006,6 +1006,12 @@ def run(ctx):
     res.rule += ("; producer stage: byte streams of such frames and noise x write-fault scripts (OSError / timeout at any cycle), "
                  "puts by other tasks at any cycle boundary, foreign disconnects, end of stream or silence, compared with the "
                  "producer machine at every quiescent point")
+    # the same reader / connection in a process with HISTORY (calls abandoned at every suspension point of read(), the
+    # Frame.create executor hop with its job pending included; each history in a fresh python process): harness/history.py
+    import history
+    history.evaluate(res, random.Random(ctx["seed"] * 7919 + 909), ctx["tier"], "C09", 12 if ctx["tier"] == "quick" else None)
+    res.rule += ("; connections opened after an earlier one was ended (reader time-out / tasks cancelled / shutdown) while its producer "
+                 "sat in Frame.create with the executor job pending, or whose tasks were cancelled while a consumer sat in PhysicalDevice.create with the device-class import pending, each history in a fresh process")
     return res
 
 
@@ -1013,6 +1019,12 @@ def replay(ctx):
     f = ctx["replay"].get("failure") or ctx["replay"].get("first_difference")
     inp = f["input"]
     res = Result("C09")
+    if inp.get("via") == "history":
+        import history
+        res.rule = "replay of one recorded history of connections in a fresh process"
+        history.replay_case(res, inp, "C09")
+        res.case(str(inp["scenario"]))
+        return res
     if inp.get("via") == "producer":
         res.rule = "replay of one recorded producer run"
         producer.replay_case(res, inp, "C09")
